@@ -147,6 +147,18 @@ func Accel(t *rapid.T, cfg Cfg) *ast.Node {
 			a.Kids = append(a.Kids, s.accStr(t, 2, 4))
 		}
 		return ast.Seq(ast.Group(ast.GNon, a), tail())
+	case 17: // shared literal, then branches that diverge at runes sharing their leading UTF-8 bytes
+		sib := [][]rune{{'é', 'É'}, {'λ', 'Λ'}, {'日', '旧'}, {0x1F600, 0x1F601}, {'Ж', 'ж'}, {'é', 'ë', 'É'}}
+		pair := rapid.SampledFrom(sib).Draw(t, "siblings")
+		a := ast.Alt()
+		for _, r := range pair {
+			a.Kids = append(a.Kids, ast.Seq(ast.Lit(r), s.accStr(t, 0, 2), tail()))
+		}
+		pre := s.accStr(t, 0, 3)
+		if len(pre.R) == 0 {
+			return ast.Seq(ast.Group(ast.GNon, a), tail())
+		}
+		return ast.Seq(pre, ast.Group(ast.GNon, a), tail())
 	case 2: // leading set
 		return ast.Seq(s.smallSet(t), tail())
 	case 3: // fixed-distance string / char / sets
